@@ -81,6 +81,8 @@ class Gen:
         if depth >= 3 or r.random() < 0.55:
             simple = [
                 lambda: f"{t()} = {e()}", lambda: f"{t()} = {t()} = {e()}", lambda: f"{n} += {e()}", lambda: f"o.{n} %= {e()}", lambda: f"d['{n}'] |= {e()}",
+                lambda: f"{n}, *{self.name()} = {e()}, {e()}, {e()}", lambda: f"*{n}, {self.name()} = '{self.name()}', 'b', 'c'", lambda: f"{t()}, {t()} = '{n}', '{self.name()}'",
+                lambda: f"{self.r.choice(TRIG_CALLS).split('(')[0]}(**{{'{n}': {e()}, 'shell': True, 'members': {e()}, 'verify': False}})",
                 lambda: f"{n}: str = {e()}", lambda: f"o.{n}: int", lambda: f"d['{n}']: str = {e()}", lambda: f"del {t()}", lambda: f"assert {e()}, {e()}", lambda: f"assert {e()}",
                 lambda: f"raise {e()} from {e()}", lambda: "raise", lambda: "pass", lambda: f"global {n}", lambda: f"import {n}.sub as {self.name()}", lambda: f"from .{n} import *",
                 lambda: f"from {n}.m import a as {self.name()}, b", lambda: self.trigger(), lambda: f"{n} = {self.trigger()}", lambda: f"return_ = {e()}", lambda: f"{e()}",
